@@ -53,7 +53,7 @@ static void           *pending_arg2;
 static int             depth;            /* 0 outer request, 1 inside the request started by the callback, 2 after it */
 static char            ev[8];            /* lookup methods tried by the outer request, in order */
 static int             ev_n;
-static int             sends, pending;
+static int             sends, pending, rec_depth[2];
 static void           *pending_arg;
 static int             stop_reason;      /* why the walk legitimately stopped before the end of the lookups string */
 static int             terminal_ev_n = -1, terminal_status = -1; /* a DNS completion that must end the walk: methods tried so far, status */
@@ -123,6 +123,16 @@ static void user_cb(void *arg, int status, int timeouts, struct hostent *host)
 #endif
 }
 
+static int count_b(void)
+{
+  static const char lks[] = LOOKUPS;
+  int               n = 0;
+  size_t            i;
+  for (i = 0; lks[i] != 0; i++)
+    if (lks[i] == 'b') n++;
+  return n;
+}
+
 /* ------------------------------------------------------------------ stubs */
 char *ares_dns_addr_to_ptr(const struct ares_addr *addr)
 {
@@ -155,6 +165,17 @@ ares_status_t ares_query_nolock(ares_channel_t *channel, const char *name, ares_
     VP_ASSERT(name == ptr_name, "the request is for the PTR name of the address");
     if (ev_n < 7) ev[ev_n++] = 'b';
     sends++;
+    VP_ASSERT(sends <= count_b(), "at most one DNS request per 'b' of the lookups string");
+  }
+  /* one request per 'b' of the lookups string; a walk that does not advance would recurse through the synchronous
+     completions for ever: cut it here as a violation instead of an unwinding bound (rec_depth[] is a constant for symex) */
+  rec_depth[nested]++;
+  if (rec_depth[nested] > count_b()) {
+    VP_ASSERT(0, "a synchronously failing DNS request is not repeated from inside its own completion");
+    rec_depth[nested]--;
+    if (nested) { pending2++; pending_arg2 = arg; }
+    else { pending++; pending_arg = arg; }
+    return ARES_SUCCESS;
   }
   if (mode == 0) { /* synchronous failure: callback first, same status returned */
     ares_status_t st = (ares_status_t)vp_range(1, 24);
@@ -165,6 +186,7 @@ ares_status_t ares_query_nolock(ares_channel_t *channel, const char *name, ares_
       if (st == ARES_ECANCELLED || st == ARES_EDESTRUCTION) { stop_reason = 2; terminal_ev_n = ev_n; terminal_status = (int)st; }
     }
     addr_callback(arg, st, t, NULL);
+    rec_depth[nested]--;
     return st;
   }
   if (mode == 1) { /* answered synchronously (cache): any mapped status, with the record */
@@ -181,10 +203,12 @@ ares_status_t ares_query_nolock(ares_channel_t *channel, const char *name, ares_
     }
     addr_callback(arg, st, 0, resp);
     ares_dns_record_destroy(resp);
+    rec_depth[nested]--;
     return ARES_SUCCESS;
   }
   if (nested) { pending2++; pending_arg2 = arg; }
   else { pending++; pending_arg = arg; }
+  rec_depth[nested]--;
   return ARES_SUCCESS;
 }
 
@@ -362,6 +386,13 @@ void harness(void)
       VP_ASSUME(resp != NULL);
     }
     timeouts_sum = t0 + t;
+    if (st == ARES_EDESTRUCTION) {
+      /* the channel is going away: the completion must not touch it any more (a dangling pointer makes any access a
+         pointer-check failure) */
+      ares_channel_t *dead = malloc(sizeof(*dead));
+      free(dead);
+      aq->channel = dead;
+    }
     addr_callback(aq, st, (size_t)t, resp);
     if (resp != NULL) ares_dns_record_destroy(resp);
 
